@@ -278,6 +278,7 @@ class DirectedMultigraph : private LabeledDirectedGraph<EdgeMultiplicity> {
             adjacencyList[i].clear();
         edgeNumber = 0;
         totalEdgeNumber = 0;
+        edgeLabels.clear();
     }
 
     /// Casts the multigraph to a labeled graph, thus ignoring edge
